@@ -153,6 +153,7 @@ def gen_rounds(seed, tier, run):
         out.append(f"concatenate {L(arrs)} {z(ax)}")
         split_idx.append((len(out), sh, ax))
         out.append(f"array_split {arr(sh)} {z(rng.randint(1, sh[ax] + 1))} {z(ax)}")
+    out = retype(out, rng, set(['append', 'concatenate', 'stack', 'vstack', 'row_stack', 'hstack', 'dstack', 'column_stack', 'array_split', 'split', 'split_axis', 'hsplit', 'vsplit', 'dsplit']))          # other element types for the generic operations
     impl, model = run(out)
     # round trip on the implementation: concatenating the parts along the same axis restores the array
     rt = []
